@@ -4,4 +4,6 @@
 cd "$(dirname "$0")" || exit 1
 export CARGO_NET_OFFLINE=true
 python3 -m vk.kani_warm || true
+# ... and the loom target directory (nexosim's test build under --cfg nexosim_loom, release profile)
+python3 -m vk.loomrun quick > /dev/null 2>&1 || true
 exit 0
